@@ -27,6 +27,13 @@ def cfg : Cfg :=
     ioSep := Gen.C14.ioSep
     ioKeys := Gen.C14.ioKeys
     pioFields := Gen.C14.pioFields
-    ioIntGuarded := Gen.C14.ioIntGuarded }
+    ioIntGuarded := Gen.C14.ioIntGuarded
+    isfileDeniedRaises := Gen.C14.isfileDeniedRaises
+    existsDeniedRaises := Gen.C14.existsDeniedRaises
+    linkGoneDenied := Gen.C14.linkGoneDenied
+    linkDeniedRaises := Gen.C14.linkDeniedRaises
+    infoGoneDenied := Gen.C14.infoGoneDenied
+    wrapPermAD := Gen.C14.wrapPermAD
+    wrapZombieFirst := Gen.C14.wrapZombieFirst }
 
 end Psutil.C14
